@@ -11,9 +11,38 @@ import warnings  # noqa: E402
 if sys.flags.bytes_warning >= 2:                          # the harness silences warnings on import; -bb must stay an error
     warnings.simplefilter("error", BytesWarning)
 
+def selector_probe():
+    """every foreign selector object / padding value against the three selector-taking functions: the class of the
+    exception that comes out (C15: TypeError for padding and encipherment types, ValueError for MAC padding methods)"""
+    import gens
+    from core import ac, sm, mac
+    out = []
+    k = bytes(range(16))
+    for i, obj in enumerate(gens.NON_MEMBERS):
+        for name, call, member in (("generate_ac", lambda: ac.generate_ac(k, b"data", obj), isinstance(obj, ac.PaddingType)),
+                                   ("encrypt_command_data", lambda: sm.encrypt_command_data(k, b"data", obj), isinstance(obj, sm.EncryptionType))):
+            if member:
+                continue
+            try:
+                call(); r = "returned"
+            except BaseException as e:  # noqa: BLE001
+                r = type(e).__name__
+            out.append(f"{name}[{i}:{type(obj).__name__}]={r}")
+    for i, obj in enumerate(gens.BAD_PADDINGS):
+        try:
+            mac.mac_iso9797_3(k[:8], k[8:], b"data", obj); r = "returned"
+        except BaseException as e:  # noqa: BLE001
+            r = type(e).__name__
+        out.append(f"mac_iso9797_3[{i}:{type(obj).__name__}]={r}")
+    return " ".join(out)
+
+
 for line in sys.stdin:
     line = line.rstrip("\n")
     if not line:
+        continue
+    if line == "@selectors":
+        print(selector_probe())
         continue
     try:
         print(pyexec.py_answer(line), flush=False)
